@@ -17,6 +17,13 @@
 (*   "bc"  world.borrow(entity) then component::<C>() / component_mut      *)
 (*   "bs"  archetype.borrow_slice::<C>() / borrow_slice_mut                *)
 (*   "cl"  world.clone()  (leaf: shared borrow of every column, released)  *)
+(*   "cb"  world.clone() as an OUTER access: while the components of the     *)
+(*         (non-empty) archetype a are being cloned, every column of a is    *)
+(*         shared-borrowed, and the body runs from inside a component's      *)
+(*         Clone::clone (which may reach the world being cloned, e.g. through*)
+(*         an Rc).  Enumerated only when no column at all has a writer (the  *)
+(*         order in which clone visits the archetypes is not specified), and *)
+(*         the body is restricted to accesses of archetype a and to clone.   *)
 (* An access is [k, a, c, m, e]: kind, archetype, column, mode ("s"/"m"),  *)
 (* entity index (which live entity of the archetype it targets).           *)
 (***************************************************************************)
@@ -38,7 +45,8 @@ Accesses ==
   \cup {[k |-> k, a |-> a, c |-> c, m |-> m, e |-> 0] :
             k \in {"ib", "bs"}, a \in Archs, c \in UNION {ArchCols[x] : x \in Archs}, m \in {"s", "m"}}
   \cup {[k |-> "cl", a |-> "-", c |-> "-", m |-> "s", e |-> 0]}
-WellFormed(x) == IF x.k = "cl" THEN TRUE ELSE x.c \in ArchCols[x.a]
+  \cup {[k |-> "cb", a |-> a, c |-> "-", m |-> "s", e |-> 0] : a \in Archs \ Empty}
+WellFormed(x) == IF x.k \in {"cl", "cb"} THEN TRUE ELSE x.c \in ArchCols[x.a]
 
 VARIABLES
     stack,   \* active accesses, innermost last; each with the cells it holds
@@ -59,6 +67,7 @@ Init == /\ stack = <<>>
 \* cells an access needs, as a set of <<cell, mode>>
 Needs(x) ==
     IF x.k = "cl" THEN {<<cl, "s">> : cl \in Cells}
+    ELSE IF x.k = "cb" THEN {<<<<x.a, c>>, "s">> : c \in ArchCols[x.a]}
     ELSE IF x.k = "ib" /\ x.a \in Empty THEN {}      \* no invocation, no guard
     ELSE {<<<<x.a, x.c>>, x.m>>}
 
@@ -68,16 +77,22 @@ Release(cs, n) == [cl \in Cells |-> IF <<cl, "s">> \in n THEN cs[cl] - 1 ELSE IF
 
 \* does the body of an access run (so that nested accesses can happen)?
 HasBody(x) == x.k # "cl" /\ ~(x.k = "ib" /\ x.a \in Empty)
+\* inside the body of a clone-as-outer-access
+InCb == \E i \in DOMAIN stack : stack[i].x.k = "cb"
+CbArch == stack[CHOOSE i \in DOMAIN stack : stack[i].x.k = "cb"].x.a
+NoWriter == \A cl \in Cells : cells[cl] >= 0
 Target(x) == <<x.a, x.c, IF x.k \in {"ib", "bs"} THEN 1 ELSE x.e>>
 
 Enter(x) ==
     /\ ~done /\ enters < MaxEnters /\ Len(stack) < MaxDepth
     /\ WellFormed(x)
+    /\ x.k = "cb" => (NoWriter /\ ~InCb)
+    /\ InCb => (x.k = "cl" \/ (x.k # "cb" /\ x.a = CbArch))
     /\ enters' = enters + 1
     /\ IF CanTake(Needs(x))
-       THEN LET reads == HasBody(x) /\ x.a \notin Empty /\ x.c \notin ZstCols   \* nothing to read in an empty slice / a zero-sized cell
+       THEN LET reads == HasBody(x) /\ x.k # "cb" /\ x.a \notin Empty /\ x.c \notin ZstCols   \* nothing to read in an empty slice / a zero-sized cell
                 seen  == IF reads THEN mem[Target(x)] ELSE -1 IN
-            /\ hist' = Append(hist, <<"enter", x, "ok", IF HasBody(x) /\ x.a \notin Empty /\ x.c \in ZstCols THEN 0 ELSE seen, HasBody(x)>>)
+            /\ hist' = Append(hist, <<"enter", x, "ok", IF HasBody(x) /\ x.k # "cb" /\ x.a \notin Empty /\ x.c \in ZstCols THEN 0 ELSE seen, HasBody(x)>>)
             /\ mem' = IF reads /\ x.m = "m" THEN [mem EXCEPT ![Target(x)] = enters + 1] ELSE mem
             /\ IF HasBody(x)
                THEN /\ stack' = Append(stack, [x |-> x, held |-> Needs(x)])
